@@ -239,11 +239,42 @@ def monC05keep (o : Obs) : Bool :=
 
 def monC05 (o : Obs) : Bool := monC05foreign o && monC05empty o && monC05release o && monC05keep o
 
+/-- the events strictly before the LAST occurrence of `ev` (none if `ev` does not occur) -/
+def beforeLast (ev : Event) : List Event → Option (List Event)
+  | [] => none
+  | e :: es =>
+    match beforeLast ev es with
+    | some pre => some (e :: pre)
+    | none => if e == ev then some [] else none
+
+/-- C04 (layouts without absorbing): when a step fires a key-producing mapping, at the instant its final
+output key is pressed every modifier of its output is down, and any other modifier down is physically
+held and outside the trigger, or output by a held modifier-remapping -/
+def monC04 (o : Obs) : Bool :=
+  if !noAbsLayout o.L then true else
+  match o.fired with
+  | none => true
+  | some m =>
+    if !isActionMapping m then true
+    else match m.to.getLast? with
+      | none => true
+      | some kl =>
+        match beforeLast (Event.pressed kl) o.evs with
+        | none => false     -- the final output key must be pressed in this step
+        | some pre =>
+          let W := foldEvs o.V pre
+          m.to.all (fun y => isActionKey y || W.contains y) &&
+          W.all fun y =>
+            isActionKey y || m.to.contains y ||
+            (o.P'.contains y && !m.frm.contains y) ||
+            o.s.active.any fun m2 => !isActionMapping m2 && m2.to.contains y
+
 /-- all step monitors; returns the ids of the violated ones -/
 def stepMonitors (o : Obs) : List String :=
   (if monC01 o then [] else ["C01"]) ++
   (if monC02a o && monC02b o && monC02c o then [] else ["C02"]) ++
   (if monC03 o then [] else ["C03"]) ++
+  (if monC04 o then [] else ["C04"]) ++
   (if monC05foreign o then [] else ["C05:foreign"]) ++
   (if monC05empty o then [] else ["C05:empty"]) ++
   (if monC05release o then [] else ["C05:release"]) ++
